@@ -376,3 +376,18 @@ V("c07-chain-roots-short", "C07", "fire", UT, "    MEC = []\n    for i in range(
 V("c07-chain-shared-matrix", "C07", "fire", UT, "    MEC = []\n    for i in range(p):\n        A = np.zeros((p, p))\n", "    MEC = []\n    A = np.zeros((p, p))\n    for i in range(p):\n", rule="CHAIN", what="one matrix reused for all roots", accept_inconclusive=True)
 V("c07-silent-member-order", "C07", "silent", UT, "return same_vstructures and same_orientation and same_skeleton", "return same_skeleton and same_vstructures and same_orientation", what="conjunct order")
 V("c07-silent-filter-loop", "C07", "silent", UT, "same_skeleton = (skeleton(P) == skeleton(G)).all()", "same_skeleton = (skeleton(G) == skeleton(P)).all()", what="operands of == swapped")
+
+# ------------------------------------------------------------------------------- C08
+V("c08-rev-constant", "C08", "fire", UT, "    COM, REV, UNK = 1, -1, -2\n", "    COM, REV, UNK = 1, -3, -2\n", rule="LABELS.agree", what="reversible label no longer the one dag_to_cpdag reads")
+V("c08-reader-constant", "C08", "fire", UT, "    fros, tos = np.where(labelled == -1)", "    fros, tos = np.where(labelled == -2)", rule="LABELS.agree", what="assembler reads the unknown marker")
+V("c08-unknown-collides", "C08", "fire", UT, "    COM, REV, UNK = 1, -1, -2\n", "    COM, REV, UNK = 1, -1, -1\n", rule="LABELS", what="unknown marker equals reversible")
+V("c08-rev-one-direction", "C08", "fire", UT, "        cpdag[x, y], cpdag[y, x] = 1, 1\n", "        cpdag[x, y] = 1\n", rule="LABELS.assembly", what="reversible edges stay directed")
+V("c08-compelled-dropped", "C08", "fire", UT, "    cpdag[labelled == 1] = labelled[labelled == 1]\n", "", rule="LABELS.assembly", what="compelled edges vanish")
+V("c08-order-marker", "C08", "fire", UT, "    while (ordered == -1).any():", "    while (ordered == -2).any():", rule="ORDER.marker", what="loop tests another marker: nothing is ordered")
+V("c08-order-from-zero", "C08", "fire", UT, "    ordered = (G != 0).astype(int) * -1\n    i = 1\n", "    ordered = (G != 0).astype(int) * -1\n    i = -1\n", rule="ORDER.marker", what="first label collides with the marker")
+V("c08-order-raw", "C08", "fire", UT, "    ordered = (G != 0).astype(int) * -1\n", "    ordered = G * -1\n", rule=None, what="weights used as markers", accept_inconclusive=True)
+V("c08-swallow-extension-error", "C08", "fire", UT, "    dag = pdag_to_dag(pdag)\n    # 2. Recover the cpdag\n    return dag_to_cpdag(dag)", "    try:\n        dag = pdag_to_dag(pdag)\n    except ValueError:\n        dag = only_directed(pdag)\n    # 2. Recover the cpdag\n    return dag_to_cpdag(dag)", rule="EXTENSION", what="no ValueError when no extension exists")
+V("c08-local-index-store", "C08", "fire", UT, "                for j in real_neighbors:\n                    G[j, real_i] = 1\n", "                for j in n_i:\n                    G[j, real_i] = 1\n", rule="INDEX.real-names", what="local index used as a node name")
+V("c08-orient-away", "C08", "fire", UT, "                for j in real_neighbors:\n                    G[j, real_i] = 1\n", "                for j in real_neighbors:\n                    G[real_i, j] = 1\n", rule="INDEX.real-names", what="edges oriented out of the sink")
+V("c08-indexes-not-shrunk", "C08", "fire", UT, "                indexes.remove(real_i)  # to keep track of the real\n", "                pass\n", rule="INDEX.pairing", what="name list out of step with the matrix")
+V("c08-silent-label-names", "C08", "silent", UT, "    fros, tos = np.where(labelled == -1)", "    REVERSIBLE = -1\n    fros, tos = np.where(labelled == REVERSIBLE)", what="named constant")
